@@ -126,37 +126,57 @@ def replace_list(prog, path, new):
     return prog[:i] + [s2] + prog[i + 1:]
 
 
+def live_consts(g):
+    """constants whose defining assignment `k = literal` is still in the program (a layout may inline only those)"""
+    defs = set()
+
+    def walk(ss):
+        for s in ss:
+            if s[0] == "assign" and s[1][0] == "var":
+                defs.add((("var", s[1][1], s[1][2]), s[2]))
+            for x in s[1:]:
+                if isinstance(x, list) and x and isinstance(x[0], tuple) and isinstance(x[0][0], str):
+                    try:
+                        walk(x)
+                    except (TypeError, IndexError):
+                        pass
+    walk(g["prog"])
+    return {k: v for k, v in g["consts"].items() if (k, v) in defs}
+
+
 def shrink_program(g, fails, budget_s=120):
-    """greedy: delete statements (deepest lists last), hoist bodies of compound statements; `fails(g') -> bool`"""
+    """greedy: delete statements, hoist bodies of compound statements; `fails(g') -> bool`.
+    After every accepted change the statement lists are enumerated afresh (paths shift)."""
     t0 = time.time()
     cur = g
     changed = True
     while changed and time.time() - t0 < budget_s:
         changed = False
         for path in stmt_lists(cur["prog"]):
-            try:
-                ss = get_list(cur["prog"], path)
-            except (IndexError, TypeError):
-                continue
-            i = len(ss) - 1
-            while i >= 0 and time.time() - t0 < budget_s:
+            ss = get_list(cur["prog"], path)
+            for i in range(len(ss) - 1, -1, -1):
+                if time.time() - t0 >= budget_s:
+                    break
                 s = ss[i]
-                if not (not path and i == 0):        # keep the entry label
+                if not path and i == 0:
+                    continue                      # keep the entry label
+                cands = [ss[:i] + ss[i + 1:]]
+                bodies = ([s[1]] if s[0] in ("block", "dowhile") else [s[2], s[3]] if s[0] == "ite" else
+                          [s[2]] if s[0] in ("while", "switch") else [s[4]] if s[0] == "for" else [s[1]] if s[0] == "try" else [])
+                for body in bodies:
+                    cands.append(ss[:i] + [x for x in body if x[0] not in ("case", "brk", "cont")] + ss[i + 1:])
+                for new_ss in cands:
                     cand = dict(cur)
-                    cand["prog"] = replace_list(cur["prog"], path, ss[:i] + ss[i + 1:])
+                    cand["prog"] = replace_list(cur["prog"], path, new_ss)
+                    cand["consts"] = live_consts(cand)
                     if fails(cand):
-                        cur = cand; ss = get_list(cur["prog"], path); changed = True
-                        i -= 1
-                        continue
-                    # hoist the body of a compound statement in place of the statement
-                    for body in ([s[1]] if s[0] in ("block", "dowhile") else [s[2], s[3]] if s[0] == "ite" else
-                                 [s[2]] if s[0] in ("while", "switch") else [s[4]] if s[0] == "for" else [s[1]] if s[0] == "try" else []):
-                        cand = dict(cur)
-                        cand["prog"] = replace_list(cur["prog"], path, ss[:i] + [x for x in body if x[0] not in ("case", "brk", "cont")] + ss[i + 1:])
-                        if fails(cand):
-                            cur = cand; ss = get_list(cur["prog"], path); changed = True
-                            break
-                i -= 1
+                        cur = cand
+                        changed = True
+                        break
+                if changed:
+                    break
+            if changed:
+                break
     return cur
 
 
@@ -350,6 +370,9 @@ def literal_family():
         prog.append(("print", True, [k, ("neg", k), ("bin", "add", k, ("int", 1)), ("bin", "sub", ("neg", k), ("int", 1))]))
     prog.append(("assign", ("var", "level", "imin"), ("bin", "sub", ("neg", ("int", (1 << 63) - 1)), ("int", 1))))
     prog.append(("print", True, [("var", "level", "imin"), ("bin", "add", ("str", "x"), ("var", "level", "imin"))]))
+    prog.append(("print", True, [("neg", ("var", "level", "imin")), ("compl", ("var", "level", "imin")),
+                                 ("bin", "sub", ("var", "level", "imin"), ("int", 1)), ("bin", "mul", ("var", "level", "imin"), ("neg", ("int", 1))),
+                                 ("bin", "shr", ("var", "level", "imin"), ("int", 63)), ("bin", "lt", ("var", "level", "imin"), ("int", 0))]))
     prog.append(("end", ("var", "level", "imin")))
     return [{"prog": prog, "label": "main", "args": [], "consts": cs}]
 
@@ -388,6 +411,35 @@ def regression_family():
             ("assign", ("var", "level", "a"), A),
             ("end", None)]
     out.append({"prog": prog, "label": "main", "args": [], "consts": {}})
+    return out
+
+
+def case_label_family():
+    """case labels are integer literals like any other: values beyond 31 / 32 bits must select their own case
+    (one small program per value, so that a failure names the value)"""
+    def lit(v):
+        return ("int", v) if v >= 0 else ("neg", ("int", -v))
+    out = []
+    vals = [2147483647, 2147483648, 4294967295, 4294967296, 4294967297, (1 << 40) + 1, (1 << 63) - 1,
+            -2147483648, -2147483649, -4294967297, -((1 << 63) - 1)]
+    for v in vals:
+        prog = [("label", "main", []), ("assign", ("var", "local", "z"), ("int", 0))]
+        low = v & 0xFFFFFFFF
+        low_s = low - (1 << 32) if low >= 1 << 31 else low
+        others = sorted(str(x) for x in {low_s, 1, 0} if x != v)
+        for scrut in (lit(v), ("bin", "add", ("var", "local", "z"), lit(v))):
+            body = []
+            for o in others:
+                body += [("case", o), ("print", True, [("str", "wrong case"), ("str", o)]), ("brk",)]
+            body += [("case", str(v)), ("print", True, [("str", "right case")]), ("brk",),
+                     ("case", "default"), ("print", True, [("str", "no case")])]
+            prog.append(("switch", scrut, body))
+        if low_s != v:
+            # the truncated value must not select the wide label
+            prog.append(("switch", lit(low_s), [("case", str(v)), ("print", True, [("str", "wide label selected by its low 32 bits")]), ("brk",),
+                                               ("case", "default"), ("print", True, [("str", "ok")])]))
+        prog.append(("end", None))
+        out.append({"prog": prog, "label": "main", "args": [], "consts": {}})
     return out
 
 
@@ -432,6 +484,8 @@ def check(ctx):
         fam.append(add("regression:%d" % i, g, rng, 4))
     for i, g in enumerate(literal_family()):
         fam.append(add("literals:%d" % i, g, rng, 6))
+    for i, g in enumerate(case_label_family()):
+        fam.append(add("caselabels:%d" % i, g, rng, 3))
     for i, g in enumerate(operator_matrix(rng)):
         fam.append(add("opmatrix:%d" % i, g, rng, 4))
     for i in range(0, len(fam), 50):
